@@ -75,6 +75,8 @@ def _tour_job(job):
         try:
             tr = record(ad, real, steps)
             tr["stim"] = steps
+        except common.Violation as v:
+            tr = {"cfg": real, "steps": [], "not_observable": f"violation: {v.what}", "violation": [v.key, v.what]}
         except Exception as e:
             tr = {"cfg": real, "steps": [], "not_observable": f"{type(e).__name__}: {e}"}
         tr["walk_len"] = len(walk)
@@ -194,7 +196,9 @@ def check_into(run, prop, tier, ad):
             raise common.MachineryError("edge tour could not reach some exported transitions")
         obs_t = []
         for t in tours:
-            if "not_observable" in t:
+            if "violation" in t:
+                run.report(t["violation"][0], t["violation"][1], {"cfg": t["cfg"]})
+            elif "not_observable" in t:
                 run.not_observable({"cfg": t["cfg"], "why": t["not_observable"]})
             else:
                 obs_t.append(t)
